@@ -160,8 +160,12 @@ def run(prop, seed, budget, ctx):
             if ALIASING: why.append("replace-shares-or-changes-the-set-of-the-original"); c["aliasing"] = list(ALIASING)
         if why: c["kind"] = "P"; c["why"] = why; failures.append(c); hist["P:" + why[0][:40]] += 1
         elif not k_ok: c["kind"] = "K"; c["why"] = "model and implementation disagree"; failures.append(c); kbad += 1
-    return {"evaluations": len(meta), "distinct_nontrivial": len(distinct),
-            "rule": "generated with_fields_set dataclasses (2-5 fields: plain / required / default_as_set / init=False / InitVar) x "
+    import objmodel
+    of_, on_, od_, oh_ = objmodel.run_part("C15", seed, budget)
+    failures += of_; distinct |= od_
+    for f in of_: hist["P:" + f["why"][0][:40]] += 1
+    return {"evaluations": len(meta) + on_, "distinct_nontrivial": len(distinct),
+            "rule": "unset-tracking on a generic class deserialized through a specialised alias, against a plain twin; generated with_fields_set dataclasses (2-5 fields: plain / required / default_as_set / init=False / InitVar) x "
                     "sequences of construct-or-deserialize then 0-4 of setattr / set_fields / unset_fields / replace; non-trivial = at least "
                     "one update operation; distinct by (class shape, sequence)",
             "samples": samples, "histograms": dict(hist), "correspondence": {"compared_with_model": len(meta), "disagreements": kbad},
